@@ -22,7 +22,7 @@ RULE = (
     "Hypothesis draws archives of 0..12 members in any order: visor regular files (size 1..20000, data placed anywhere behind the "
     "header area: ascending, descending or shuffled, page-aligned or unaligned with gaps, offsets beyond 64 KiB), visor "
     "directories and empty files (data offset 0), ordinary ustar / GNU / PAX members with inline data, directories, symlinks, "
-    "long names (GNU L records, PAX path records, ustar prefixes up to 155 bytes that overlap the visor offset field), end-of-"
+    "long names (GNU L records, PAX path records with or without a size record, ustar prefixes up to 155 bytes that overlap the visor offset field), end-of-"
     "archive blocks and trailing padding; payloads that are themselves tar archives (valid block-aligned headers inside the data "
     "area, possibly repeating an outer name); the data area placed around and above 2^31 (sparse in-memory handle); plain and "
     "gzip-wrapped; ordinary archives handed over at a non-zero position of a larger file; archives opened by file name (any extension, whatever the "
@@ -77,6 +77,8 @@ def member(draw, idx):
         if kind.startswith("visor") and pre > 151:
             kind = "std-file"  # see ASSUMPTIONS: the visor offset field starts where a prefix longer than 151 bytes would continue
     m = {"kind": kind, "name": name, "longname": longname, "mode": draw(st.sampled_from([0o644, 0o755, 0o600])), "mtime": draw(st.integers(0, 2**31 - 1))}
+    if longname == "pax" and draw(st.booleans()):
+        m["pax_size"] = True  # the extended header also carries a size record (writers that record every attribute)
     if kind in ("visor-file", "std-file"):
         m["size"] = draw(st.one_of(st.integers(1, 600), st.sampled_from([511, 512, 513, 4096, 20000]), st.integers(1, 20000)))
         m["key"] = draw(st.integers(1, 1 << 30))
@@ -152,6 +154,8 @@ def _header(m) -> bytes:
     fmt = {"gnu": tarfile.GNU_FORMAT, "pax": tarfile.PAX_FORMAT, "ustar-prefix": tarfile.USTAR_FORMAT, None: tarfile.USTAR_FORMAT}[m["longname"]]
     if m["longname"] is None and len(m["name"].encode()) > 100:
         fmt = tarfile.GNU_FORMAT
+    if m.get("pax_size") and fmt == tarfile.PAX_FORMAT and ti.type == tarfile.REGTYPE:
+        ti.pax_headers = {"size": str(ti.size)}
     return ti.tobuf(fmt, "utf-8", "surrogateescape")
 
 
@@ -292,6 +296,8 @@ def check(spec) -> Outcome:
         out.cls("long-names")
     if any(m.get("nested") for m in spec["members"]):
         out.cls("nested-tar-payload")
+    if any(m.get("pax_size") and m["kind"] == "visor-file" for m in spec["members"]):
+        out.cls("pax-size-record-visor")
 
     # (not for gzip-wrapped archives: the standard library's GzipFile rewinds to offset 0 of the underlying file when a member
     # is read out of order, whoever opened it)
